@@ -60,6 +60,7 @@ var panicAPIs = map[string]string{
 }
 
 type obligCtx struct {
+	pnnMemo map[string]bool
 	c       *Ctx
 	errCmp  *bool // memo: error interface values of the module are all comparable
 	slotMem map[string][]types.Type
@@ -107,7 +108,87 @@ func rangeCounter(v ssa.Value) bool {
 }
 
 func (oc *obligCtx) nonNeg(f *Facts, v ssa.Value) bool {
-	return rangeCounter(v) || f.nonNeg(v)
+	if rangeCounter(v) || f.nonNeg(v) {
+		return true
+	}
+	if p, ok := stripNumConv(v).(*ssa.Parameter); ok {
+		return oc.paramNonNeg(p, 0)
+	}
+	return false
+}
+
+// paramNonNeg: every call site of the function in the module passes a non-negative value
+// for this parameter (co-inductively through recursion). Exported functions and functions
+// whose value escapes are not covered.
+func (oc *obligCtx) paramNonNeg(p *ssa.Parameter, depth int) bool {
+	fn := p.Parent()
+	key := oc.c.FuncKey(fn) + "|" + p.Name()
+	if v, ok := oc.pnnMemo[key]; ok {
+		return v
+	}
+	if oc.pnnMemo == nil {
+		oc.pnnMemo = map[string]bool{}
+	}
+	oc.pnnMemo[key] = true // co-inductive assumption for recursion
+	res := oc.paramNonNeg1(p, depth)
+	oc.pnnMemo[key] = res
+	return res
+}
+
+func (oc *obligCtx) paramNonNeg1(p *ssa.Parameter, depth int) bool {
+	fn := p.Parent()
+	if depth > 4 || fn.Parent() != nil {
+		return false
+	}
+	if o := fn.Object(); o == nil || o.Exported() {
+		return false
+	}
+	idx := paramIndex(fn, p)
+	n := oc.c.CHA().Nodes[fn]
+	if n == nil || len(n.In) == 0 || idx < 0 {
+		return false
+	}
+	for _, e := range n.In {
+		if e.Site == nil || !oc.c.modFuncSet[e.Caller.Func] {
+			if e.Caller.Func.Synthetic != "" {
+				continue // wrappers forward the arguments of module callers already seen through interfaces
+			}
+			return false
+		}
+		args := callArgs(e.Site.Common())
+		if idx >= len(args) {
+			return false
+		}
+		a := args[idx]
+		in, _ := e.Site.(ssa.Instruction)
+		f := FactsAt(in)
+		if rangeCounter(a) || f.nonNeg(a) {
+			continue
+		}
+		if ap, ok := stripNumConv(a).(*ssa.Parameter); ok && oc.paramNonNeg(ap, depth+1) {
+			continue
+		}
+		// level+1 style: parameter plus a non-negative constant
+		if bo, ok := stripNumConv(a).(*ssa.BinOp); ok && bo.Op == token.ADD {
+			if k, isC := constInt(bo.Y); isC && k >= 0 {
+				if ap, ok := stripNumConv(bo.X).(*ssa.Parameter); ok && oc.paramNonNeg(ap, depth+1) {
+					continue
+				}
+			}
+		}
+		return false
+	}
+	return true
+}
+
+// sortCallback: fn is Less or Swap of a type implementing sort.Interface: its index
+// parameters are valid indexes by sort's contract.
+func sortCallback(fn *ssa.Function) bool {
+	if fn.Signature.Recv() == nil || (fn.Name() != "Less" && fn.Name() != "Swap") {
+		return false
+	}
+	ms := types.NewMethodSet(fn.Signature.Recv().Type())
+	return ms.Lookup(nil, "Len") != nil && ms.Lookup(nil, "Less") != nil && ms.Lookup(nil, "Swap") != nil
 }
 
 // enumerate lists the obligations of one function for the requested kinds (nil = all).
@@ -214,6 +295,10 @@ func (oc *obligCtx) enumerate(fn *ssa.Function, kinds map[string]bool) []Obligat
 					desc := short
 					if strings.HasSuffix(name, "AssertTrue") && len(x.Common().Args) > 0 {
 						desc += ":" + exprString(x.Common().Args[0], 0)
+						if ok, w := oc.assertByShape(fn, in, x.Common().Args[0]); ok {
+							add("panicapi", in, desc, true, w)
+							return
+						}
 					}
 					add("panicapi", in, desc, false, "call of "+short+", which "+why)
 				}
@@ -233,6 +318,11 @@ func (oc *obligCtx) indexOb(fn *ssa.Function, in ssa.Instruction, X, idx ssa.Val
 		}
 	}
 	f := FactsAt(in)
+	if p, isP := stripNumConv(idx).(*ssa.Parameter); isP && sortCallback(fn) && rootOf(X) == ssa.Value(fn.Params[0]) {
+		_ = p
+		add("index", in, desc, true, "index parameter of a sort.Interface callback: valid by sort's contract")
+		return
+	}
 	if k, isC := constInt(idx); isC {
 		if k >= 0 && f.lenAtLeast(X, k+1) {
 			add("index", in, desc, true, fmt.Sprintf("len(%s) > %d established by a dominating condition or by construction", accessPath(X), k))
@@ -673,4 +763,227 @@ func boundsObligations(c *Ctx, fn *ssa.Function) []Obligation {
 	obs := oc.enumerate(fn, map[string]bool{"index": true, "slice": true})
 	sortObligations(obs)
 	return obs
+}
+
+// tokenObligations: dereferences of N.Token where N may be a node the parser constructs
+// itself (statements, funccall, compaccess, params, guard, the `true` of an else branch):
+// such nodes have a nil Token.
+func (oc *obligCtx) tokenObligations(fn *ssa.Function) []Obligation {
+	c := oc.c
+	fTok := c.Field("parser", "ASTNode", "Token")
+	if fTok == nil || c.PkgOf(fn) == "parser" && !strings.HasPrefix(fn.Name(), "pp") && !strings.Contains(c.FuncKey(fn), "PrettyPrint") {
+		// inside the parser proper every node at hand was instanced from a token by next()
+		return nil
+	}
+	key := c.FuncKey(fn)
+	ord := newOrdinals()
+	var out []Obligation
+	seen := map[string]bool{}
+	allInstrs(fn, func(in ssa.Instruction) {
+		fa, ok := in.(*ssa.FieldAddr)
+		if !ok {
+			return
+		}
+		ld, ok := fa.X.(*ssa.UnOp)
+		if !ok || fieldVar(ld.X) != fTok {
+			return
+		}
+		nodeV := ld.X.(*ssa.FieldAddr).X
+		np := accessPath(nodeV)
+		desc := np + ".Token." + fieldName(fa.X.Type(), fa.Field)
+		// one obligation per (node path, block): several fields of the same token are one dereference
+		k := np + "|" + fmt.Sprint(fa.Block().Index)
+		if seen[k] {
+			return
+		}
+		seen[k] = true
+		f := FactsAt(in)
+		ob := Obligation{Kind: "tokennil", Fn: fn, Instr: in, Site: ord.key(key, "tokennil", np), Pos: c.Pos(c.InstrPos(in)), Desc: desc}
+		switch {
+		case f.NonNil[np+".Token"]:
+			ob.Discharged, ob.Why = true, "dominated by a Token != nil test"
+		case oc.kindsCarryToken(f.NameIs[np+".Name"]):
+			ob.Discharged, ob.Why = true, "under a test of the node's kind ("+strings.Join(f.NameIs[np+".Name"], "/")+"), which always carries a token"
+		case oc.ownNodeCarriesToken(fn, np):
+			ob.Discharged, ob.Why = true, "the runtime's own node: every node kind evaluated by this runtime type is instanced from a token"
+		default:
+			ob.Why = "dereference of " + np + ".Token — a node constructed by the parser (statements, funccall, compaccess, params, guard, else-true) has a nil token"
+		}
+		out = append(out, ob)
+	})
+	return out
+}
+
+func (oc *obligCtx) kindsCarryToken(kinds []string) bool {
+	if len(kinds) == 0 {
+		return false
+	}
+	for _, k := range kinds {
+		sh, ok := nodeShapes[k]
+		if !ok || !sh.Token {
+			return false
+		}
+	}
+	return true
+}
+
+func (oc *obligCtx) ownNodeCarriesToken(fn *ssa.Function, np string) bool {
+	if oc.prov == nil || !strings.HasSuffix(np, ".node") || strings.Contains(np, "Children") {
+		return false
+	}
+	root := fn
+	for root.Parent() != nil {
+		root = root.Parent()
+	}
+	recv := root.Signature.Recv()
+	if recv == nil || !strings.HasPrefix(np, root.Params[0].Name()+".") {
+		return false
+	}
+	rn := namedOf(recv.Type())
+	if rn == nil {
+		return false
+	}
+	kinds := oc.prov.KindsOf(rn)
+	return oc.kindsCarryToken(kinds)
+}
+
+// assertByShape: AssertTrue(len(<recv>.node.Children) == k) in a method of a runtime type or of a
+// base type embedded by runtime types: holds when every node kind whose runtime reaches this
+// assertion has exactly k children by the shape table — directly (own Eval) or at every call
+// site of the helper (kinds of the calling runtime type, narrowed by the facts at the call).
+func (oc *obligCtx) assertByShape(fn *ssa.Function, in ssa.Instruction, cond ssa.Value) (bool, string) {
+	if oc.prov == nil {
+		return false, ""
+	}
+	bo, ok := unspill(cond).(*ssa.BinOp)
+	if !ok || bo.Op != token.EQL {
+		return false, ""
+	}
+	k, isC := constInt(bo.Y)
+	t := termOf(bo.X)
+	if !isC || !t.isLen() || t.Off != 0 || !strings.HasSuffix(t.LenPath, ".node.Children") || fn.Signature.Recv() == nil {
+		return false, ""
+	}
+	recvT := namedOf(fn.Signature.Recv().Type())
+	if recvT == nil || rootOf(t.LenVal) != ssa.Value(fn.Params[0]) {
+		return false, ""
+	}
+	// exact: for every kind, the child counts allowed by the shape table and by the facts are {k}
+	exact := func(kinds []string, allowed func(n int64) bool) bool {
+		if len(kinds) == 0 {
+			return false
+		}
+		for _, kd := range kinds {
+			sh, ok := nodeShapes[kd]
+			if !ok {
+				return false
+			}
+			mx := int64(sh.Max)
+			if mx < 0 {
+				mx = int64(sh.Min) + 12 // unbounded: probe a window; any count ≠ k in it refutes
+			}
+			for n := int64(sh.Min); n <= mx; n++ {
+				if allowed(n) && n != k {
+					return false
+				}
+			}
+		}
+		return true
+	}
+	// the function is itself an Eval/Validate of a concrete runtime type
+	if _, direct := oc.prov.typeIsRuntime(recvT); direct {
+		if exact(oc.prov.KindsOf(recvT), func(int64) bool { return true }) {
+			return true, fmt.Sprintf("AST shape: every node kind of %s has exactly %d children", recvT.Obj().Name(), k)
+		}
+		return false, ""
+	}
+	// helper of an embedded base type: check every call site
+	n := oc.c.CHA().Nodes[fn]
+	if n == nil || len(n.In) == 0 {
+		return false, ""
+	}
+	sites := 0
+	for _, e := range n.In {
+		caller := e.Caller.Func
+		if caller.Synthetic != "" && !oc.c.modFuncSet[caller] {
+			// promotion wrapper of an embedding type: reachable only through method values /
+			// interfaces the module does not use for these helpers; its own callers are checked
+			if wn := oc.c.CHA().Nodes[caller]; wn == nil || len(wn.In) == 0 {
+				continue
+			}
+			return false, ""
+		}
+		if !oc.c.modFuncSet[caller] || e.Site == nil {
+			return false, ""
+		}
+		root := caller
+		for root.Parent() != nil {
+			root = root.Parent()
+		}
+		if root.Signature.Recv() == nil {
+			return false, ""
+		}
+		ct := namedOf(root.Signature.Recv().Type())
+		if ct == nil {
+			return false, ""
+		}
+		if _, isRT := oc.prov.typeIsRuntime(ct); !isRT {
+			return false, ""
+		}
+		// narrow by facts at the call: comparisons of len(<recv>.node.Children) with constants
+		ci, _ := e.Site.(ssa.Instruction)
+		f := FactsAt(ci)
+		type cc struct {
+			op token.Token
+			k  int64
+		}
+		var cons []cc
+		for _, cm := range f.Cmps {
+			l, op, r := cm.L, cm.Op, cm.R
+			if r.isLen() && l.IsConst {
+				l, r = r, l
+				op = flipOp(op)
+			}
+			if !l.isLen() || !r.IsConst || !strings.HasSuffix(l.LenPath, ".node.Children") || strings.Contains(l.LenPath, "Children[") {
+				continue
+			}
+			cons = append(cons, cc{op, r.K - l.Off})
+		}
+		allowed := func(n int64) bool {
+			for _, x := range cons {
+				switch x.op {
+				case token.EQL:
+					if n != x.k {
+						return false
+					}
+				case token.NEQ:
+					if n == x.k {
+						return false
+					}
+				case token.GTR:
+					if !(n > x.k) {
+						return false
+					}
+				case token.GEQ:
+					if !(n >= x.k) {
+						return false
+					}
+				case token.LSS:
+					if !(n < x.k) {
+						return false
+					}
+				case token.LEQ:
+					if !(n <= x.k) {
+						return false
+					}
+				}
+			}
+			return true
+		}
+		if !exact(oc.prov.KindsOf(ct), allowed) {
+			return false, ""
+		}
+		sites++
+	}
+	return true, fmt.Sprintf("AST shape: at all %d call sites the calling runtime's node kinds have exactly %d children", sites, k)
 }
